@@ -539,7 +539,7 @@ impl<'a> Iterator for FinalStateIterator<'a> {
     }
 }
 
-#[derive(Debug)]
+#[derive(Debug, Clone)]
 struct StateInConstruction {
     is_final: bool,
     default_successor: Option<usize>,
@@ -730,7 +730,10 @@ impl<T: Eq + Hash + Clone> AutomatonBuilder<T> {
         let n = self.size;
         let mut num_final_states = 0;
         let mut state_array = Vec::with_capacity(n);
-        for (i, s) in self.states.iter_mut().enumerate() {
+        for (i, s) in self.states.iter().enumerate() {
+            // clean up a copy: the builder keeps the transitions as the caller gave them,
+            // so that it can be extended and built again
+            let mut s = s.clone();
             s.cleanup();
             let p = s.make_partition()?;
             if s.default_successor.is_some() && p.empty_complement() {
@@ -767,7 +770,9 @@ impl<T: Eq + Hash + Clone> AutomatonBuilder<T> {
         let num_states = self.size;
         let mut num_final_states = 0;
         let mut state_array = Vec::with_capacity(num_states);
-        for (i, s) in self.states.iter_mut().enumerate() {
+        for (i, s) in self.states.iter().enumerate() {
+            // clean up a copy (see build)
+            let mut s = s.clone();
             s.cleanup();
             let p = s.make_partition().unwrap();
             let successor = s.make_successor(&p);
